@@ -207,6 +207,14 @@ func cpuSeconds() float64 {
 }
 
 // judgeC02 checks the totality invariant of one Parse outcome.
+// c02AccessorOnly returns a Config on which no function was ever registered (its function tables
+// are nil) with accessor mode on.
+func c02AccessorOnly() jsonpath.Config {
+	var c jsonpath.Config
+	c.SetAccessorMode()
+	return c
+}
+
 func judgeC02(pr impl.ParseResult) (ok bool, kind, detail string) {
 	switch {
 	case pr.Panic != "":
@@ -288,7 +296,11 @@ func (j *stringsJob) one(c *run.Ctx, s string, family string) {
 		return
 	}
 	c.Tick()
-	for ci := 0; ci < 2; ci++ {
+	nCfg := 2
+	if !j.withModel {
+		nCfg = 3 // C02 also calls Parse with two Config arguments (the signature is variadic)
+	}
+	for ci := 0; ci < nCfg; ci++ {
 		var cfg *jsonpath.Config
 		cfgName := "none"
 		mcfg := pmodel.Config{}
@@ -296,7 +308,13 @@ func (j *stringsJob) one(c *run.Ctx, s string, family string) {
 			cfg, cfgName, mcfg = &j.env.CfgAcc, "funcs+accessor", j.mcfg
 		}
 		cpu0 := cpuSeconds()
-		pr := impl.Parse(s, cfg)
+		var pr impl.ParseResult
+		if ci == 2 {
+			cfgName = "two-configs"
+			pr = impl.ParseN(s, c02AccessorOnly(), j.env.Cfg)
+		} else {
+			pr = impl.Parse(s, cfg)
+		}
 		cpu := cpuSeconds() - cpu0
 		c.Evals++
 		if cpu > slowParseCPUSeconds && !j.withModel {
@@ -515,6 +533,9 @@ func registerStrings(id string, withModel bool, level, rule string, assumptions 
 			}
 			cpu0 := cpuSeconds()
 			pr := impl.Parse(s, cfg)
+			if cs["config"] == "two-configs" {
+				pr = impl.ParseN(s, c02AccessorOnly(), env.Cfg)
+			}
 			if cs["slow"] == true {
 				cpu := cpuSeconds() - cpu0
 				return cpu > slowParseCPUSeconds, fmt.Sprintf("Parse used %.1f s of CPU time", cpu)
